@@ -22,7 +22,11 @@ def run(job):
     except subprocess.TimeoutExpired:
         rc, out = "timeout", []
     viol = [l for l in out if l.startswith(("VIOLATION", "KNOWN-FINDING", "HARNESS-ERROR"))]
-    return f"{pid} seed={seed} rc={rc} {time.time()-t:.0f}s :: {(out or ['?'])[-1][:200]}" + "".join("\n    " + v[:200] for v in viol[:5])
+    last = (out or ['?'])[-1]
+    import re as _re
+    m = _re.search(r"theorems (\d+/\d+) discharged, (\d+) cases .*?(\d+) disagreements, (\d+) oracle failures, (\d+) known", last)
+    brief = f"thm {m.group(1)} cases {m.group(2)} dis {m.group(3)} orc {m.group(4)} known {m.group(5)}" if m else last[:160]
+    return f"{pid} seed={seed} rc={rc} {time.time()-t:.0f}s :: {brief}" + "".join("\n    " + v[:160] for v in viol[:5])
 with ThreadPoolExecutor(a.jobs) as ex:
     bad = 0
     for line in ex.map(run, [(p, int(s)) for p in ids for s in a.seeds.split(",")]):
